@@ -22,6 +22,9 @@ func (d *Def) isComingArgs(t *base.T) bool {
 	return t.IsOpenParentheses() || !t.IsNewLineIdentifier()
 }
 
+// (A parameter is declared for the class whose body the definition stands in:
+// SetOwnValueT, so that a subclass that redeclares a method does not write
+// into the parameter of its superclass's - or a configured class's - method.)
 func (d *Def) bindDefaultKeywordArgs(
 	e *Evaluator,
 	p *parser.Parser,
@@ -37,7 +40,7 @@ func (d *Def) bindDefaultKeywordArgs(
 
 	if nextT.IsNewLineIdentifier() {
 		if ctx.IsDefineRound() {
-			base.SetValueT(
+			base.SetOwnValueT(
 				ctx.GetFrame(),
 				ctx.GetClass(),
 				ctx.GetMethod(),
@@ -64,7 +67,7 @@ func (d *Def) bindDefaultKeywordArgs(
 		lastEvaluatedT.SetHasDefault(true)
 
 		if ctx.IsDefineRound() {
-			base.SetValueT(
+			base.SetOwnValueT(
 				ctx.GetFrame(),
 				ctx.GetClass(),
 				ctx.GetMethod(),
@@ -110,7 +113,7 @@ func (d *Def) bindDefaultArgs(
 	rightT.SetHasDefault(true)
 
 	if ctx.IsDefineRound() {
-		base.SetValueT(
+		base.SetOwnValueT(
 			ctx.GetFrame(),
 			ctx.GetClass(),
 			ctx.GetMethod(),
